@@ -11,12 +11,14 @@ def gen_legal(rng, arches):
     for _ in range(nseg):
         if rng.random() < 0.3:
             segs.append(rstr(rng, DIGITS, 1, 3))
+        elif rng.random() < 0.1:
+            segs.append(rng.choice(["lib.rpm", "x.rpm5", "rpm", ".rpm", "a.src", "noarch"]))      # extension-like text inside the name
         else:
             segs.append(rstr(rng, NAME_SEG, 1, 6))
     name = "-".join(segs)
     epoch = None if rng.random() < 0.4 else rng.choice([0, 1, 2, 7, 10, 123, 99999, 2 ** 40])
-    version = rstr(rng, VR, 1, 8)
-    release = rstr(rng, VR, 1, 8)
+    version = rstr(rng, VR, 1, 8) if rng.random() < 0.9 else rng.choice(["4.rpm2", "1.rpm", "2.src", ".rpm.1"])
+    release = rstr(rng, VR, 1, 8) if rng.random() < 0.9 else rng.choice(["1.rpm5", "3.rpm", "1.noarch", "2.el9.rpm"])
     arch = rng.choice(arches)
     d = ""
     if rng.random() < 0.5:
